@@ -113,7 +113,7 @@ def run_case(case):
             ret["k"], ret["raw"] = "resp", ["none", 0]
         elif hasattr(raw, "as_integer"):
             ret["k"] = "resp"
-            ret["raw"] = ["err" if raw.error else "val", 255 if raw.error else raw.as_integer]
+            ret["raw"] = ["err" if raw.error else "val", raw.as_integer]
         else:
             ret["k"] = "other"
     rec["ev"] = ev
@@ -142,7 +142,7 @@ def cases(tier, seed):
         # silence or framing error at each step
         nsteps = 1 + (res + 7) // 8
         for at in range(1, nsteps + 1):
-            for fk in ("silent", "err"):
+            for fk in ("silent", "err", "errsame"):
                 dev = {"short": 7, "status": 0, "inst": [_inst(rng, res=res)]}
                 cs.append({"seq": "input", "bus": _bus([dev], rng, fault=(at, fk)), "target": [1, 0], "resolution": None})
     # filters
@@ -165,7 +165,7 @@ def cases(tier, seed):
             dev = {"short": rng.randrange(64), "status": 0, "inst": [_inst(rng, width=w, filt=list((rng.getrandbits(nb)).to_bytes(3, "little")))]}
             cs.append({"seq": "queryfilter", "bus": _bus([dev], rng), "target": [1, 0], "ftype": name})
         for at in range(1, 4):
-            for fk in ("silent", "err"):
+            for fk in ("silent", "err", "errsame"):
                 dev = {"short": 3, "status": 0, "inst": [_inst(rng, width=w)]}
                 cs.append({"seq": "setfilter", "bus": _bus([dev], rng, fault=(at, fk)), "target": [1, 0], "ftype": name,
                            "req": list((rng.getrandbits(nb)).to_bytes(3, "little"))})
@@ -203,7 +203,7 @@ def cases(tier, seed):
             addresses = list(scan)
         fault = (0, "none")
         if k % 5 == 0:
-            fault = (rng.randrange(1, 40), rng.choice(["silent", "err"]))
+            fault = (rng.randrange(1, 40), rng.choice(["silent", "err", "errsame"]))
         c = {"seq": "discover", "bus": _bus(devs, rng, fault=fault), "addresses": addresses, "scan": scan}
         if rng.random() < 0.4:
             # a mapper that has been used before: entries of units since replaced (other type) or removed
@@ -218,7 +218,7 @@ def cases(tier, seed):
                          "inst": [_inst(rng, enabled=(k + variant) % 2, type_=rng.randrange(32)) for k in range(3)]})
         nans = 2 * (2 + 3 + 3)
         for at in range(1, nans + 1):
-            for fk in ("silent", "err"):
+            for fk in ("silent", "err", "errsame"):
                 cs.append({"seq": "discover", "bus": _bus([dict(d, inst=[dict(i) for i in d["inst"]]) for d in devs], rng, fault=(at, fk)),
                            "addresses": [4, 9], "scan": [4, 9]})
     return cs
